@@ -48,12 +48,31 @@ def record_worker(seed_, n_schemas, n_values, extra):
             out["n_schemas"] += 1
             root = len(env.defs)
             t = S.Ref(root)
-            for _ in range(n_values):
+            # the message nobody has touched: encoded first, read (through the public API) afterwards
+            value0 = None
+            try:
+                msg = P.new_message(env, mod, root)
+                obsL, obsB = msg.encode("<"), msg.encode(">")
+                value0 = P.extract(env, msg, t)
+                out["items"].append({"env": env.defs, "walk": S.value_to_walk(env, t, value0), "obsL": list(obsL), "obsB": list(obsB)})
+                out["meta"].append({"schema": env.render(), "names": env.names, "untouched": True})
+            except Exception as e:
+                out["fails"].append({"check": "enc", "what": "a message nothing was assigned to cannot be encoded and read: %s"
+                                     % P.exc_text(e), "schema": env.render(), "defs": env.defs, "walk": []})
+            rd = env.d(root)
+            nested = [j for j, m in enumerate(rd["ms"], 1) if m["f"] == "plain" and env.base(m["t"])["k"] == "ref"
+                      and env.d(env.base(m["t"])["i"])["k"] in ("struct", "union")] if rd["k"] == "struct" else []
+            for vi in range(n_values):
                 value = gen.gen_value(rnd, env, t)
+                skip = ()
+                if nested and value0 is not None and vi % 2 == 1:
+                    # every other value leaves some nested composites untouched: they keep their defaults
+                    skip = tuple(j for j in nested if rnd.random() < 0.6) or (nested[0],)
+                    value = ("struct", [value0[1][j - 1] if j in skip else y for j, y in enumerate(value[1], 1)])
                 walk = S.value_to_walk(env, t, value)
                 try:
                     msg = P.new_message(env, mod, root)
-                    P.fill(env, msg, t, value)
+                    P.fill(env, msg, t, value, skip=skip)
                     obsL = msg.encode("<")
                     obsB = msg.encode(">")
                 except Exception as e:
